@@ -19,7 +19,7 @@ def builds_needed(tier):
 
 # Own corpus re-run on other builds of the crate (mc/core.py: extra builds). Every observation is compared with the same model.
 def extra_builds(tier):
-    return [("relchk", None), ("avx2", None)]
+    return [("relchk", None), ("native", None)]
 
 
 
@@ -106,8 +106,12 @@ def limb_cases(tier):
     z = bytes(16)
     keys = [(1).to_bytes(16, "little") + bytes(16), (1).to_bytes(16, "little") + b"\xff" * 16, (2).to_bytes(16, "little") + pat(7, 0, 16),
             (4).to_bytes(16, "little") + bytes(16), (5).to_bytes(16, "little") + b"\xff" * 16]
+    # r = 2^26, 2^52, 2^78, 2^104: multiplication by r rotates the 26-bit limbs (the top one re-entering as 5x), 2^27 and 3*2^26 double /
+    # triple them on the way: the same limb-field blocks then meet every carry position with large carries
+    keys += [(v).to_bytes(16, "little") + bytes(16) for v in (1 << 26, 1 << 27, 3 << 26, 1 << 52, 1 << 78, 1 << 104)]
     if tier == "thorough":
-        keys += [(3).to_bytes(16, "little") + bytes(16), (0x0ffffffc0ffffffc0ffffffc0fffffff).to_bytes(16, "little") + bytes(16)]
+        keys += [(3).to_bytes(16, "little") + bytes(16), (0x0ffffffc0ffffffc0ffffffc0fffffff).to_bytes(16, "little") + bytes(16),
+                 ((1 << 26) | (1 << 52) | (1 << 104)).to_bytes(16, "little") + b"\xff" * 16]
     out = []
     for key in keys:
         for m in limb_blocks(tier):
